@@ -82,6 +82,7 @@ func scenario(p Prog, bound int, withCtx bool) *sched.Scenario {
 		Setup: func(x *sched.Exec) ([]sched.Driver, func(*sched.Exec) string) {
 			var mu sync.Mutex
 			var out strings.Builder
+			var cancels []context.CancelFunc
 			status := "not run"
 			body := func() {
 				if buildErr != nil {
@@ -99,9 +100,13 @@ func scenario(p Prog, bound int, withCtx bool) *sched.Scenario {
 					mu.Unlock()
 				}}
 				if withCtx {
-					// a cancellable context that is never cancelled: channel operations take the select-with-done path
+					// a cancellable context that is never cancelled while anything runs: channel
+					// operations take the select-with-done path. It is cancelled by the final
+					// observation only: cancelling when Run returns would race with the
+					// goroutines that main left behind (the body goes on after the VM's last
+					// scheduling point), and the same schedule would not replay.
 					ctx, cancel := context.WithCancel(context.Background())
-					defer cancel()
+					cancels = append(cancels, cancel)
 					opts.Context = ctx
 				}
 				err := prog.Run(opts)
@@ -114,6 +119,9 @@ func scenario(p Prog, bound int, withCtx bool) *sched.Scenario {
 			return []sched.Driver{{Name: "main", Body: body}}, func(*sched.Exec) string {
 				mu.Lock()
 				defer mu.Unlock()
+				for _, c := range cancels {
+					c()
+				}
 				return out.String() + "[" + status + "]"
 			}
 		},
